@@ -151,6 +151,7 @@ static void multiset_diff(const std::vector<std::string>& a, const std::vector<s
 struct Verdict {
     std::set<std::string> keys;      // known-defect input classes that explain every difference seen
     std::vector<std::string> fails;  // unexplained differences
+    std::vector<std::string> notes;
 };
 
 // compare expectation (with candidate defect classes) against an actual dump
@@ -178,6 +179,12 @@ static void compare_dumps(const Dump& expect, const Dump& actual, const std::str
                 }
             }
         }
+        if (!explained)
+            for (auto& c : le.cand)
+                if (c.second == -1) {  // this defect class can make the whole element disappear
+                    explained = true;
+                    v.keys.insert(c.first);
+                }
         if (!explained) v.fails.push_back(what + ": expected line missing: " + le.text);
     }
     for (size_t k = 0; k < oa.size(); k++)
@@ -186,52 +193,116 @@ static void compare_dumps(const Dump& expect, const Dump& actual, const std::str
         v.fails[v.fails.size() - 2] = what + ": line differs: expected " + e[oe[0]] + " got " + a[oa[0]];
 }
 
-// circles (polygons the harness made with gdstk's ellipse()): the re-loaded polygon either equals the original
-// rounded to the grid (no CIRCLE record was used) or - when circle detection is on - lies within tolerance
-// (+ grid rounding of centre and radius) of the original circle.  On success its vertex section is replaced by
-// the word the expectation carries.
-static void circle_substitution(const ALib& L, const Built& b, const Library& lib, int64_t tolgrid, PolySubst& subst, Verdict& v,
-                                long& detected) {
-    double scaling = lib.unit / lib.precision;
-    for (size_t ci = 0; ci < L.cells.size(); ci++) {
-        const ACell& ac = L.cells[ci];
+// ---- circle detection.  With circle_tolerance > 0 the writer may replace ANY polygon by a CIRCLE record; the
+// re-loaded polygon must then lie within the stated tolerances of the original: every vertex and edge midpoint of
+// either boundary within T of the other boundary, T = 1.25 * circle tolerance (the chord bound of is_circle allows a
+// sagitta slightly above the tolerance) + 1 grid step (read tolerance) + 1.3 grid steps (rounding of centre and radius).
+static double seg_dist(double px, double py, double ax, double ay, double bx, double by) {
+    double dx = bx - ax, dy = by - ay;
+    double l2 = dx * dx + dy * dy;
+    double t = l2 > 0 ? ((px - ax) * dx + (py - ay) * dy) / l2 : 0;
+    if (t < 0) t = 0;
+    if (t > 1) t = 1;
+    return hypot(px - (ax + t * dx), py - (ay + t * dy));
+}
+typedef std::vector<std::pair<double, double>> DPts;
+static DPts scaled_points(const Polygon* p, double scaling) {
+    DPts v;
+    for (uint64_t i = 0; i < p->point_array.count; i++) v.push_back({p->point_array[i].x * scaling, p->point_array[i].y * scaling});
+    return v;
+}
+static double one_sided(const DPts& a, const DPts& b) {
+    double worst = 0;
+    size_t na = a.size(), nb = b.size();
+    for (size_t i = 0; i < na; i++) {
+        std::pair<double, double> q[2] = {a[i], {0.5 * (a[i].first + a[(i + 1) % na].first), 0.5 * (a[i].second + a[(i + 1) % na].second)}};
+        for (auto& pt : q) {
+            double best = 1e300;
+            for (size_t k = 0; k < nb; k++) {
+                double d = seg_dist(pt.first, pt.second, b[k].first, b[k].second, b[(k + 1) % nb].first, b[(k + 1) % nb].second);
+                if (d < best) best = d;
+            }
+            if (best > worst) worst = best;
+        }
+    }
+    return worst;
+}
+static bool circle_like(const DPts& a) {
+    if (a.size() < 5) return false;
+    double cx = 0, cy = 0;
+    for (auto& p : a) { cx += p.first; cy += p.second; }
+    cx /= a.size();
+    cy /= a.size();
+    double rmin = 1e300, rmax = 0;
+    for (auto& p : a) {
+        double r = hypot(p.first - cx, p.second - cy);
+        rmin = std::min(rmin, r);
+        rmax = std::max(rmax, r);
+    }
+    return rmax - rmin < 1.5;
+}
+// pairs the polygons of `ref` and `got` by cell name and index (the writer and the reader keep the order)
+static void tolerance_substitution(const Library& ref, const Library& got, int64_t tolgrid, PolySubst& subst, Verdict& v, long& detected,
+                                   const std::string& what) {
+    double sr = ref.unit / ref.precision, sg = got.unit / got.precision;
+    for (uint64_t ci = 0; ci < ref.cell_array.count; ci++) {
+        Cell* rc = ref.cell_array[ci];
         Cell* c = NULL;
-        for (uint64_t i = 0; i < lib.cell_array.count; i++)
-            if (lib.cell_array[i]->name && ac.name == lib.cell_array[i]->name) c = lib.cell_array[i];
-        if (!c || c->polygon_array.count != ac.polys.size()) continue;
-        for (size_t i = 0; i < ac.polys.size(); i++) {
-            const APoly& ap = ac.polys[i];
-            if (!ap.circle) continue;
-            Polygon* p = c->polygon_array[i];
-            Polygon* orig = b.lib.cell_array[ci]->polygon_array[i];
-            if (canon_cycle(grid_points(p->point_array, scaling)) == canon_cycle(grid_points(orig->point_array, L.scaling()))) {
-                subst[{ac.name, i}] = "circle";
-                continue;
-            }
+        for (uint64_t i = 0; i < got.cell_array.count; i++)
+            if (got.cell_array[i]->name && strcmp(rc->name, got.cell_array[i]->name) == 0) c = got.cell_array[i];
+        if (!c || c->polygon_array.count != rc->polygon_array.count) continue;
+        for (uint64_t i = 0; i < rc->polygon_array.count; i++) {
+            Polygon* po = rc->polygon_array[i];
+            Polygon* pg = c->polygon_array[i];
+            std::vector<P2> eo = canon_cycle(grid_points(po->point_array, sr));
+            if (eo == canon_cycle(grid_points(pg->point_array, sg))) continue;
             if (tolgrid <= 0) continue;  // stays a mismatch
-            double slack = (double)tolgrid + 1.3;
-            bool ok = p->point_array.count >= 3;
-            for (uint64_t k = 0; ok && k < p->point_array.count; k++) {
-                Vec2 a = p->point_array[k] * scaling, bb = p->point_array[(k + 1) % p->point_array.count] * scaling;
-                Vec2 m = 0.5 * (a + bb);
-                double da = hypot(a.x - (double)ap.cx, a.y - (double)ap.cy);
-                double dm = hypot(m.x - (double)ap.cx, m.y - (double)ap.cy);
-                if (fabs(da - (double)ap.cr) > slack || fabs(dm - (double)ap.cr) > slack) ok = false;
-            }
-            // and it goes once around: the area matches pi r^2 within the same band
-            if (ok) {
-                double area = fabs(p->signed_area()) * scaling * scaling;
-                double r = (double)ap.cr;
-                if (area < M_PI * (r - slack) * (r - slack) * 0.98 || area > M_PI * (r + slack) * (r + slack)) ok = false;
-            }
-            if (ok) {
-                subst[{ac.name, i}] = "circle";
-                detected++;
-            } else {
-                v.fails.push_back("circle re-loads outside tolerance: cell " + ac.name + " polygon " + std::to_string(i));
+            DPts a = scaled_points(po, sr), bb = scaled_points(pg, sg);
+            if (!circle_like(bb)) continue;  // not a re-created circle: stays a mismatch
+            double T = 1.25 * (double)tolgrid + 2.3;
+            double h = std::max(one_sided(a, bb), one_sided(bb, a));
+            subst[{rc->name, (size_t)i}] = pts_text(eo);
+            if (h <= T) detected++;
+            else {
+                char buf[200];
+                snprintf(buf, sizeof buf, "%s: cell %s polygon %llu (%llu vertices) re-loads as a circle %.2f grid steps away, tolerance %lld",
+                         what.c_str(), rc->name, (unsigned long long)i, (unsigned long long)po->point_array.count, h, (long long)tolgrid);
+                double far = 0, xmin = 1e300, xmax = -1e300, ymin = 1e300, ymax = -1e300;
+                for (auto& q : a) {
+                    far = std::max(far, std::max(fabs(q.first), fabs(q.second)));
+                    xmin = std::min(xmin, q.first); xmax = std::max(xmax, q.first);
+                    ymin = std::min(ymin, q.second); ymax = std::max(ymax, q.second);
+                }
+                double diag_user = hypot(xmax - xmin, ymax - ymin) / sr, tol_user = (double)tolgrid / sr;
+                if (far > 268435456.0) {
+                    // the least-squares fit of is_circle works on absolute coordinates: beyond ~2^28 grid steps from the
+                    // origin the cancellation error of |p|^2 - |ref|^2 exceeds the grid
+                    v.keys.insert("is_circle:far-from-origin");
+                    v.notes.push_back(buf);
+                } else if (diag_user * diag_user < tol_user) {
+                    // is_circle tests fabs(|p-c|^2 - r^2) >= tolerance: squared lengths against a length.  When the
+                    // polygon is smaller than sqrt(tolerance) in user units the test cannot fail and any shape passes
+                    v.keys.insert("is_circle:radial-test-units");
+                    v.notes.push_back(buf);
+                } else {
+                    v.fails.push_back(buf);
+                }
             }
         }
     }
+}
+// expectation: polygons the harness made with ellipse() are expected as their vertices rounded to the grid
+static Dump expected_with_circles(const ALib& L, const Built& b) {
+    ALib L2 = L;
+    double sc = L.scaling();
+    for (size_t ci = 0; ci < L2.cells.size(); ci++)
+        for (size_t i = 0; i < L2.cells[ci].polys.size(); i++) {
+            APoly& ap = L2.cells[ci].polys[i];
+            if (!ap.circle) continue;
+            ap.pts = grid_points(b.lib.cell_array[ci]->polygon_array[i]->point_array, sc);
+            ap.circle = false;
+        }
+    return expected_dump(L2);
 }
 
 static const char* ec_name(ErrorCode e) {
@@ -260,6 +331,7 @@ struct CaseParams {
 
 static void emit(FILE* o, const Verdict& v) {
     for (auto& k : v.keys) fprintf(o, "KEY %s\n", k.c_str());
+    for (size_t i = 0; i < v.notes.size() && i < 2; i++) fprintf(o, "NOTE %s\n", v.notes[i].c_str());
     for (size_t i = 0; i < v.fails.size() && i < 4; i++) fprintf(o, "FAIL %s\n", v.fails[i].c_str());
 }
 
@@ -307,6 +379,25 @@ static void check_signature(const std::string& file, unsigned flags, uint64_t fl
     unlink(bf.c_str());
 }
 
+// a later cycle against the first re-load: nothing more may change (circles again within tolerance)
+static void later_cycle(const Library& l1, const Dump& dump1, const std::set<std::string>& unit_steps, const Library& ln, int64_t tolgrid, const std::string& what, Verdict& v2) {
+    Verdict t;
+    PolySubst subst;
+    long n = 0;
+    tolerance_substitution(l1, ln, tolgrid, subst, t, n, what);
+    Dump e = dump1;  // taken before l1 was saved again: FlexPath::to_oas edits the spine it writes
+    // input class of the grid-step finding (sections: 2 = points; -1 = the element may vanish altogether)
+    for (auto& l : e.lines)
+        if (unit_steps.count(l.text)) {
+            l.cand.push_back({"FlexPath::remove_overlapping_points:grid-step-segment", 2});
+            l.cand.push_back({"FlexPath::remove_overlapping_points:grid-step-segment", -1});
+        }
+    compare_dumps(e, library_dump(ln, &subst), what, t);
+    if (!t.fails.empty()) v2.fails.push_back(t.fails[0]);
+    for (auto& k : t.keys) v2.keys.insert(k);
+    for (auto& k : t.notes) v2.notes.push_back(k);
+}
+
 static void child_body(FILE* o, const ALib& L, const CaseParams& cp) {
     set_error_logger(NULL);
     if (!getenv("C02_VERBOSE")) {  // qhull (bounding boxes) writes precision warnings to stderr
@@ -320,13 +411,10 @@ static void child_body(FILE* o, const ALib& L, const CaseParams& cp) {
     std::string f1 = g_outdir + "/x.oas", f1b = g_outdir + "/x1b.oas", f2 = g_outdir + "/x2.oas", f3 = g_outdir + "/x3.oas";
 
     // the builder must realise the abstract layout (guards the harness itself)
-    Dump expect = expected_dump(L);
+    Dump expect = expected_with_circles(L, b);
     {
-        PolySubst s0;
         Verdict hv;
-        long n0 = 0;
-        circle_substitution(L, b, b.lib, 0, s0, hv, n0);
-        Dump built = library_dump(b.lib, &s0);
+        Dump built = library_dump(b.lib);
         Dump plain = expect;
         for (auto& l : plain.lines) l.cand.clear();
         compare_dumps(plain, built, "builder", hv);
@@ -356,11 +444,12 @@ static void child_body(FILE* o, const ALib& L, const CaseParams& cp) {
     if (fabs(l1.precision / L.precision - 1) > 1e-12) v.fails.push_back("precision changed: " + hex_dbl(L.precision) + " -> " + hex_dbl(l1.precision));
     PolySubst subst;
     long detected = 0;
-    circle_substitution(L, b, l1, cp.tolgrid, subst, v, detected);
+    tolerance_substitution(b.lib, l1, cp.tolgrid, subst, v, detected, "cycle1");
     compare_dumps(expect, library_dump(l1, &subst), "cycle1", v);
     fprintf(o, "STAT circles_detected %ld\n", detected);
+    std::set<std::string> unit_steps;
+    Dump dump1 = library_dump(l1, NULL, &unit_steps);
     emit(o, v);
-    Dump dump1 = library_dump(l1);
 
     // ---- second save of the same (now mutated) original object
     Verdict v2;
@@ -368,37 +457,24 @@ static void child_body(FILE* o, const ALib& L, const CaseParams& cp) {
     b.lib.write_oas(f1b.c_str(), tol_user, (uint8_t)cp.level, (uint16_t)cp.flags);
     fprintf(o, "STEP load1b\n");
     Library l1b = read_oas(f1b.c_str(), read_unit, 0, NULL);
-    {
-        Verdict t;
-        Dump d = library_dump(l1b);
-        Dump e = dump1;
-        compare_dumps(e, d, "second save of the same library", t);
-        if (!t.fails.empty()) v2.fails.push_back(t.fails[0]);
-    }
+    later_cycle(l1, dump1, unit_steps, l1b, cp.tolgrid, "second save of the same library", v2);
     // ---- cycles 2 and 3
     fprintf(o, "STEP save2 f1=%d\n", f1_applies(l1, cp.flags) ? 1 : 0);
-    l1.write_oas(f2.c_str(), tol_user, (uint8_t)cp.level, (uint16_t)cp.flags);
+    l1.write_oas(f2.c_str(), cp.tolgrid > 0 ? (double)cp.tolgrid / (l1.unit / l1.precision) : 0.0, (uint8_t)cp.level, (uint16_t)cp.flags);
     fprintf(o, "STEP load2\n");
     Library l2 = read_oas(f2.c_str(), read_unit, 0, NULL);
-    {
-        Verdict t;
-        compare_dumps(dump1, library_dump(l2), "cycle2 vs cycle1", t);
-        if (!t.fails.empty()) v2.fails.push_back(t.fails[0]);
-    }
+    later_cycle(l1, dump1, unit_steps, l2, cp.tolgrid, "cycle2 vs cycle1", v2);
     fprintf(o, "STEP save3 f1=%d\n", f1_applies(l2, cp.flags) ? 1 : 0);
-    l2.write_oas(f3.c_str(), tol_user, (uint8_t)cp.level, (uint16_t)cp.flags);
+    l2.write_oas(f3.c_str(), cp.tolgrid > 0 ? (double)cp.tolgrid / (l2.unit / l2.precision) : 0.0, (uint8_t)cp.level, (uint16_t)cp.flags);
     fprintf(o, "STEP load3\n");
     Library l3 = read_oas(f3.c_str(), read_unit, 0, NULL);
-    {
-        Verdict t;
-        compare_dumps(dump1, library_dump(l3), "cycle3 vs cycle1", t);
-        if (!t.fails.empty()) v2.fails.push_back(t.fails[0]);
-    }
+    later_cycle(l1, dump1, unit_steps, l3, cp.tolgrid, "cycle3 vs cycle1", v2);
     // later cycles of a layout that already showed a known defect are attributed to that defect
-    if (!v2.fails.empty()) {
-        if (!v.keys.empty() && v.fails.empty()) fprintf(o, "NOTE later cycles differ after known defect: %s\n", v2.fails[0].c_str());
-        else emit(o, v2);
+    if (!v2.fails.empty() && !v.keys.empty() && v.fails.empty()) {
+        fprintf(o, "NOTE later cycles differ after known defect: %s\n", v2.fails[0].c_str());
+        v2.fails.clear();
     }
+    emit(o, v2);
     fprintf(o, "DONE\n");
 }
 
@@ -447,7 +523,7 @@ static void run_case(Out& out, const std::string& kind, const std::string& paylo
     bool last_f1 = false, done = false;
     std::set<std::string> keys;
     std::vector<std::string> fails;
-    std::string harness_bug;
+    std::string harness_bug, note;
     size_t p = 0;
     while (p < res.size()) {
         size_t q = res.find('\n', p);
@@ -460,6 +536,7 @@ static void run_case(Out& out, const std::string& kind, const std::string& paylo
         } else if (line.compare(0, 4, "KEY ") == 0) keys.insert(line.substr(4));
         else if (line.compare(0, 5, "FAIL ") == 0) fails.push_back(line.substr(5));
         else if (line.compare(0, 8, "HARNESS ") == 0) harness_bug = line.substr(8);
+        else if (line.compare(0, 5, "NOTE ") == 0 && note.empty()) note = line.substr(5);
         else if (line.compare(0, 5, "STAT ") == 0) {
             char name[64];
             long val = 0;
@@ -478,7 +555,7 @@ static void run_case(Out& out, const std::string& kind, const std::string& paylo
         // one P line per case: report the first key, name the others
         std::string all;
         for (auto& k : keys) all += (all.empty() ? "" : ",") + k;
-        verdict = "FAIL " + *keys.begin() + " known defect class hit (" + all + ")";
+        verdict = "FAIL " + *keys.begin() + " defect class hit (" + all + ")" + (note.empty() ? "" : ": " + note);
     } else verdict = "ok";
     if (verdict != "ok") {
         out.count("verdict:" + verdict.substr(5, verdict.find(' ', 5) - 5));
@@ -507,7 +584,10 @@ int main(int argc, char** argv) {
         return 0;
     }
     for (auto& c : load_corpus(argc > 4 ? argv[4] : NULL)) run_case(out, c.first, c.second);
-    Rng g(seed);
+    // common.hpp's Rng(seed) starts at seed * golden-ratio increment: the streams of seeds s and s+1 are the same
+    // sequence shifted by one draw.  Re-seed from the first (mixed) output so that different seeds give unrelated runs.
+    Rng g0(seed);
+    Rng g(g0.next());
     char buf[160];
     if (!thorough) {
         // 120 layouts x 10 option sets; the flag word walks through all 256 combinations
